@@ -17,7 +17,7 @@ def gen_manifest(rng, nb=None):
     rng.shuffle(names)
     builds, used = [], 0
     for _ in range(nb):
-        k = rng.choice([1, 1, 2, 3])
+        k = rng.choice([1, 1, 2, 3, 3, 4])
         outs = names[used:used + k]
         used += k
         if not outs:
